@@ -1,9 +1,9 @@
 /- C09 driver:
-   `C09 sched max [[fetch,k,T],[connFail,k],[connOk,k],[respond,k],[redirect,k,k2],[advance,dt],…]`
+   `C09 sched max [[fetch,k,T],[connFail,k],[connOk,k],[respond,k],[redirect,k,k2],[drop,k,closed|error|crash],[advance,dt],…]`
         → `ok [[[start…],[[root,how]…],nActive,nQueue,nWaiting],…]`
    `C09 redir [method,hasBody,url,[[set|add,n,v]…],authUser,maxRedirects,follow,decompress] [[prep,hop],…]`
         prep = [host,urlCreds|~,authValue,userAgent,contentLength]
-        hop  = [code,location|~,origScheme,origNetloc,newScheme,newNetloc,joined,normalized,stripped]
+        hop  = [code,location|~,origScheme,origNetloc,newScheme,newNetloc,joined,normalized,stripped,joinRaises,portRaises]
         → `ok [[method,hasBody,url,[[k,v]…],authUser,maxRedirects],…]`  (the requests issued after the first)
    `C09 speccheck max [submitted] [starts] [roots] [completions] [observedActive]` → `ok fifo once active`
    `C09 specstrip authUser urlHasUserinfo [[k,v]…]` → `ok T|F`
@@ -20,12 +20,16 @@ def decOp (v : V) : Option Op := do
   | [.atom "connOk", k] => pure (.connOk (← k.nat?))
   | [.atom "respond", k] => pure (.respond (← k.nat?))
   | [.atom "redirect", k, k'] => pure (.redirect (← k.nat?) (← k'.nat?))
+  | [.atom "drop", k, .atom "closed"] => pure (.drop (← k.nat?) .closed)
+  | [.atom "drop", k, .atom "error"] => pure (.drop (← k.nat?) .error)
+  | [.atom "drop", k, .atom "crash"] => pure (.drop (← k.nat?) .crash)
   | [.atom "advance", d] => pure (.advance (← d.nat?))
   | _ => none
 
 def encHow : How → V
   | .ok => .atom "ok" | .connFail => .atom "connfail" | .tmoQueue => .atom "timeout-queue"
   | .tmoConnect => .atom "timeout-connect" | .tmoRequest => .atom "timeout-request"
+  | .closed => .atom "closed" | .error => .atom "error" | .crash => .atom "crash"
 
 def obsRun (s : St) : List Op → List V
   | [] => []
@@ -59,9 +63,10 @@ def decPrep (v : V) : Option Prep := do
 
 def decHop (v : V) : Option Hop := do
   match ← v.list? with
-  | [c, l, os, on, ns, nn, j, n, s] =>
+  | [c, l, os, on, ns, nn, j, n, s, jr, pr] =>
     pure { code := ← c.nat?, location := ← optStr l, origScheme := ← os.cps?, origNetloc := ← on.cps?,
-           newScheme := ← ns.cps?, newNetloc := ← nn.cps?, joined := ← j.cps?, normalized := ← n.cps?, stripped := ← s.cps? }
+           newScheme := ← ns.cps?, newNetloc := ← nn.cps?, joined := ← j.cps?, normalized := ← n.cps?, stripped := ← s.cps?,
+           joinRaises := ← jr.bool?, portRaises := ← pr.bool? }
   | _ => none
 
 def decPH (v : V) : Option (Prep × Hop) := do
